@@ -25,6 +25,7 @@ type c18Harness struct {
 	triggers map[uint64]int // vault id -> number of extra accrual steps in A
 	trigTimes map[uint64][]int64
 	ltrig    map[uint64]int // locker id -> same
+	lexcl    map[uint64]bool
 	pre      struct {
 		kind           string
 		id             uint64
@@ -155,12 +156,27 @@ func (h *c18Harness) Step(ev *Event, step int) (Result, *Violation) {
 		v.Step = step
 		return res, v
 	}
+	if ev.Kind == "admin" && ev.Admin == "aux.update_lookup" && res.Err == nil {
+		// a change of the saving rate settles every locker through a loop that silently drops a locker's accrual when the
+		// recorded fees cannot cover it (listed C13 finding): which twin loses how much then depends on when it was last paid.
+		// Lockers are compared only for triggers since the last rate change, and a locker that had been triggered before
+		// the change may already hold a different balance than its twin: it is left out from then on.
+		if h.lexcl == nil {
+			h.lexcl = map[uint64]bool{}
+		}
+		for id, n := range h.ltrig {
+			if n > 0 {
+				h.lexcl[id] = true
+			}
+		}
+		h.ltrig = map[uint64]int{}
+	}
 	if pureTrigger(ev) {
 		if res.Tx.OK() && h.pre.valid {
 			if h.pre.kind == "vault" {
 				h.triggers[h.pre.id]++
 				h.trigTimes[h.pre.id] = append(h.trigTimes[h.pre.id], h.a.Hdr.Time.Unix())
-			} else {
+			} else if !h.lexcl[h.pre.id] {
 				h.ltrig[h.pre.id]++
 			}
 			h.a.Stats.Fault("sched.extra_interest_trigger")
@@ -282,7 +298,88 @@ func (h *c18Harness) compareTwins() *Violation {
 			a.Stats.Probe("c18.twin_split_accrual_owes_less")
 		}
 	}
+	return h.compareLockerTwins()
+}
+
+// earnedLocker accrues the locker's savings to the current block time on a discarded branch and returns what it has earned
+// in total (credited returns + carried fraction) together with the deposited principal (balance minus credited returns).
+func earnedLocker(w *World, id uint64) (earned sdk.Dec, principal sdk.Int, l lockertypes.Locker, ok bool) {
+	ctx, _ := w.WCtx().CacheContext()
+	l, found := w.App.LockerKeeper.GetLocker(ctx, id)
+	if !found {
+		return sdk.Dec{}, sdk.Int{}, l, false
+	}
+	var err error
+	func() {
+		defer func() {
+			if r := recover(); r != nil {
+				err = fmt.Errorf("%v", r)
+			}
+		}()
+		err = w.App.Rewardskeeper.CalculateLockerRewards(ctx, l.AppId, l.AssetDepositId, l.LockerId, l.Depositor, l.NetBalance, l.BlockHeight, l.BlockTime.Unix())
+	}()
+	if err != nil {
+		return sdk.Dec{}, sdk.Int{}, l, false
+	}
+	l2, _ := w.App.LockerKeeper.GetLocker(ctx, id)
+	tr, _ := w.App.Rewardskeeper.GetLockerRewardTracker(ctx, id, l.AppId)
+	return sdk.NewDecFromInt(l2.ReturnsAccumulated).Add(decOr0(tr.RewardsAccumulated)), l2.NetBalance.Sub(l2.ReturnsAccumulated), l, true
+}
+
+// compareLockerTwins: a locker that received extra reward-calculation triggers (world A) must not have earned more than
+// its twin that was accrued only by the operations both worlds share (same tolerance reasoning as for vaults).
+func (h *c18Harness) compareLockerTwins() *Violation {
+	a, b := h.a, h.b
+	ids := make([]uint64, 0, len(h.ltrig))
+	for id := range h.ltrig {
+		ids = append(ids, id)
+	}
+	sortU64(ids)
+	for _, id := range ids {
+		if h.ltrig[id] == 0 {
+			continue
+		}
+		ea, pa, la, ok1 := earnedLocker(a, id)
+		eb, pb, lb, ok2 := earnedLocker(b, id)
+		if !ok1 || !ok2 || !pa.Equal(pb) || la.Depositor != lb.Depositor {
+			continue
+		}
+		a.Stats.Probe("c18.twin_locker_compared")
+		steps := int64(h.ltrig[id] + 2)
+		base := la.NetBalance
+		if t := pa.Add(ea.TruncateInt()); t.GT(base) {
+			base = t
+		}
+		// float64 resolution of principal x growth factor (the module subtracts the principal afterwards): 4e-14 per step
+		tol := sdk.NewDecFromBigIntWithPrec(new(big.Int).Mul(base.BigInt(), big.NewInt(steps*4)), 14).Add(sdk.NewDecWithPrec(steps, 15))
+		// every extra trigger may move whole units earlier into the balance that earns savings; growth of one unit per trigger
+		lk, _ := a.App.CollectorKeeper.GetCollectorLookupTable(a.Ctx(), la.AppId, la.AssetDepositId)
+		rate, _ := lk.LockerSavingRate.Float64()
+		if rate > 10 {
+			rate = 10
+		}
+		years := float64(a.Hdr.Time.Unix()-la.CreatedAt.Unix()) / 31557600.0
+		if years < 0 {
+			years = 0
+		}
+		extra := float64(h.ltrig[id]) * (math.Pow(1+rate, years) - 1) * 1.05
+		if es, err := sdk.NewDecFromStr(strconv.FormatFloat(extra, 'f', 18, 64)); err == nil {
+			tol = tol.Add(es)
+		}
+		if ea.GT(eb.Add(tol)) {
+			return &Violation{Property: "C18", OracleID: "c18.additivity", Signature: "more_triggers_earn_more:locker",
+				Detail: fmt.Sprintf("locker %d (deposited %s): with %d extra reward-calculation triggers it has earned %s, its twin accrued without them %s (tolerance %s)", id, pa, h.ltrig[id], ea, eb, tol)}
+		}
+	}
 	return nil
+}
+
+func sortU64(x []uint64) {
+	for i := 1; i < len(x); i++ {
+		for j := i; j > 0 && x[j] < x[j-1]; j-- {
+			x[j], x[j-1] = x[j-1], x[j]
+		}
+	}
 }
 
 // c18Switch picks the harness by scenario: twins for the cdp workload (vault interest, locker savings),
